@@ -636,3 +636,27 @@ def gen_markowitz(rng, tier):
         bits = [1 if (rng.random() < dens or i // n == i % n and rng.random() < 0.8) else 0 for i in range(n * n)]
         out.append("markowitz %d %d %s" % (n, rng.choice([0, 2, 4]), " ".join(map(str, bits))))
     return out
+
+
+# ratec L ncells nproc {kind size nthird}* by_label T[ncells] P[ncells] vals[ncells*nparams]
+def gen_ratec(rng, tier):
+    out = []
+    for L in range(0, 6):
+        for ncells in range(1, (3 * L + 2) if L else 5):
+            for _ in range(vol(tier, 6, 60)):
+                nproc = rng.randrange(1, 7)
+                specs = []
+                for r in range(nproc):
+                    kind = rng.choice([0, 0, 0, 1, 2])
+                    size = rng.randrange(0, 4) if kind == 0 else (1 if kind == 1 else 0)
+                    specs.append((kind, size, rng.choice([0, 0, 1, 2])))
+                nparams = sum(s for _, s, _ in specs)
+                T = [rng.randrange(2, 9) for _ in range(ncells)]
+                P = [rng.randrange(1, 6) for _ in range(ncells)]
+                vals = [100 * (c + 1) + 2 * col + rng.randrange(0, 2) * 2 for c in range(ncells) for col in range(nparams)]
+                t = [L, ncells, nproc]
+                for k, s, nt in specs:
+                    t += [k, s, nt]
+                t += [rng.randrange(2)] + T + P + vals
+                out.append("ratec " + " ".join(map(str, t)))
+    return out
